@@ -97,9 +97,19 @@ def encode_table(F):
         a = b.arg_exprs(s)
         r = a[1]
         if r.k == "agg" and (r.x.get("adt") or "").endswith("RangeTo") and is_arg(a[0], "bytes"):
+            k = fold(r.a[0])
+            if k is None:
+                # one `&bytes[..len]` after the branches, `len` being the constant each branch yields
+                per = _per_branch_consts(b, r)
+                if per:
+                    for bb_, v in per:
+                        sig = _sig(b, bb_, isval, notes)
+                        rows.setdefault(sig, {"stores": {}, "len": None})
+                        rows[sig]["len"] = v
+                    continue
             sig = _sig(b, s.bb, isval, notes)
             rows.setdefault(sig, {"stores": {}, "len": None})
-            rows[sig]["len"] = fold(r.a[0])
+            rows[sig]["len"] = k
     table = []
     for sig, row in rows.items():
         lo, hi = 0, 2**32
@@ -119,6 +129,34 @@ def encode_table(F):
         table.append({"lo": lo, "hi": hi, "len": row["len"], "stores": dict(sorted(row["stores"].items()))})
     table.sort(key=lambda r: r["lo"])
     return table, notes
+
+
+def _per_branch_consts(b, range_expr):
+    """[(block, constant)] when the bound of the RangeTo aggregate is a local that every branch sets to a constant"""
+    site = range_expr.x.get("site")
+    if site is None or site.i is None:
+        return None
+    st = b.at(site)
+    ops = st["rv"].get("ops") or []
+    if len(ops) != 1 or ops[0].get("k") not in ("copy", "move") or ops[0]["pl"]["p"]:
+        return None
+    l = ops[0]["pl"]["l"]
+    d = b.defs()[0]
+    for _ in range(6):
+        ds = d.get(l, [])
+        if len(ds) == 1 and ds[0][1] == "assign" and ds[0][2]["rv"] == "use" and ds[0][2]["op"].get("k") in ("copy", "move") and not ds[0][2]["op"]["pl"]["p"]:
+            l = ds[0][2]["op"]["pl"]["l"]
+        else:
+            break
+    out = []
+    for s_, kind, payload in d.get(l, []):
+        if kind != "assign":
+            return None
+        v = fold(b._expr_of_def((s_, kind, payload)))
+        if v is None:
+            return None
+        out.append((s_.bb, v))
+    return out if len(out) >= 2 else None
 
 
 def _var_of(b, op, site):
